@@ -98,7 +98,7 @@ theorem C02_unpack_single_value_no_leak (C : DecCodec) (hC : CodecOk C) (data : 
 /-- **ERROR CODE** (the CODE fix): once `parse_error` has accepted an ERROR element, the `int(CODE)` of
     `_imethodcall` / `_methodcall` / `_iexportcall` succeeds, for every tree -/
 theorem C02_error_code_checked (C : EnvCodec) (fuel : Nat) (t : Xml) (code : Str) (d : Bool) (insts : List Inst)
-    (h : decError C fuel t = .ok (.error code d insts)) : ∃ v, pyInt code = some v :=
+    (h : decError C fuel t = .ok (.error code d insts)) : ∃ v, pyIntLim code = some v :=
   decError_ok C fuel t _ h
 
 /-- **envelope_no_leak (partial)**: for EVERY operation signature and EVERY tree the SAX layer can
@@ -269,7 +269,7 @@ theorem C02_http_accepts_iff (h : HttpResp) :
     IMETHODRESPONSE whose first child is an ERROR element, the operation raises CIMError with
     `int(CODE)` as status code — for every operation shape and whatever follows the ERROR element -/
 theorem C02_cim_error_surfaces (C : EnvCodec) (fuel : Nat) (op : OpSpec) (hk : op.kind = .imethod) (t : Xml)
-    (code : Str) (v : Int) (hv : pyInt code = some v) (d : Bool) (insts : List Inst) (rest : List RspKid)
+    (code : Str) (v : Int) (hv : pyIntLim code = some v) (d : Bool) (insts : List Inst) (rest : List RspKid)
     (h : decCim C fuel t = .ok (.simplersp ⟨"IMETHODRESPONSE".toList, op.meth, .error code d insts :: rest⟩)) :
     handleResponse C fuel op t = .error (.cimError v.toNat) := by
   have h1 : responseKids "IMETHODRESPONSE" "SIMPLERSP" op.meth
